@@ -41,6 +41,7 @@ import (
 	"github.com/dappledger/AnnChain/eth/common"
 	crypto "github.com/dappledger/AnnChain/gemmill/go-crypto"
 	"github.com/dappledger/AnnChain/gemmill/mempool"
+	sm "github.com/dappledger/AnnChain/gemmill/state"
 	gtypes "github.com/dappledger/AnnChain/gemmill/types"
 	"github.com/dappledger/AnnChain/gemmill/verifhook"
 
@@ -110,10 +111,16 @@ func classify(err error) string {
 // the commit window (SwapState .. UpdateToState) uses the process-wide GateFn: one at a time
 var commitMu sync.Mutex
 
+// one commit of the real caller: State.CommitStateUpdateMempool(evsw, block, pool, round) runs in its own goroutine;
+// it is parked (1) in the commit-hook listener, i.e. after mempool.Update and before the application's OnCommit, and
+// (2) at the Gate inside OnCommit before pool.updateToState()
 type window struct {
-	swapped chan struct{}
-	release chan struct{}
-	done    chan string
+	updated  chan struct{} // mempool.Update has returned, the commit hook fired
+	goSwap   chan struct{} // let the listener call OnCommit
+	swapping bool
+	swapped  chan struct{} // OnCommit reached the gate: new app.state installed
+	release  chan struct{} // let OnCommit finish
+	done     chan string
 }
 
 type run struct {
@@ -130,6 +137,7 @@ type run struct {
 	blk     *gtypes.Block
 	blkIDs  []txid
 	win     *window
+	evsw    gtypes.EventSwitch
 	aborted bool
 	// oracle state (independent of the model)
 	committed map[txid]bool
@@ -446,11 +454,19 @@ func (r *run) inBlock(id txid) bool {
 }
 
 func (r *run) closeWindow() string {
-	if r.win == nil {
+	w := r.win
+	if w == nil {
 		return ""
 	}
-	close(r.win.release)
-	e := <-r.win.done
+	if !w.swapping {
+		// the behaviour ends between mempool.Update and the state swap: let the commit run through
+		commitMu.Lock()
+		verifhook.GateFn = nil
+		close(w.goSwap)
+	} else {
+		close(w.release)
+	}
+	e := <-w.done
 	verifhook.GateFn = nil
 	r.win = nil
 	r.inWindow = false
@@ -557,10 +573,27 @@ func (r *run) step(si int, st mbt.Step, model bool) {
 			r.aborted = true
 			return
 		}
-		// state.CommitStateUpdateMempool: mempool.Update(height, append(block.Txs, block.ExTxs...))
-		p, stack := mbt.Catch(func() { pool.Update(blk.Height, append(blk.Data.Txs, blk.Data.ExTxs...)) })
-		if p != nil {
-			r.fail(si, label, "panic", true, "panic:Update", fmt.Sprintf("%v\n%s", p, stack), nil, nil)
+		// the real caller: state.CommitStateUpdateMempool tells the pool which transactions the block contained and then
+		// fires the commit hook; the block is built like pbft's createProposalBlock builds it (admin requests in ExTxs)
+		w := &window{updated: make(chan struct{}), goSwap: make(chan struct{}), swapped: make(chan struct{}), release: make(chan struct{}), done: make(chan string, 1)}
+		r.win = w
+		go func() {
+			e := ""
+			p, stack := mbt.Catch(func() {
+				if err := (&sm.State{}).CommitStateUpdateMempool(r.evsw, blk, pool, 0); err != nil {
+					e = err.Error()
+				}
+			})
+			if p != nil {
+				e = fmt.Sprintf("panic: %v\n%s", p, stack)
+			}
+			w.done <- e
+		}()
+		select {
+		case <-w.updated:
+		case e := <-w.done:
+			r.win = nil
+			r.fail(si, label, "panic", true, "panic:CommitStateUpdateMempool", e, nil, nil)
 			r.aborted = true
 			return
 		}
@@ -572,9 +605,14 @@ func (r *run) step(si int, st mbt.Step, model bool) {
 		r.oracles(si, label, pre, r.view(), false)
 	case "SwapState":
 		pre := r.view()
+		w := r.win
+		if w == nil {
+			r.fail(si, label, "error", false, "", "SwapState without Update in trace", nil, nil)
+			r.aborted = true
+			return
+		}
 		commitMu.Lock()
-		w := &window{swapped: make(chan struct{}), release: make(chan struct{}), done: make(chan string, 1)}
-		r.win = w
+		w.swapping = true
 		var once sync.Once
 		verifhook.GateFn = func(site string) {
 			if site == "evm.OnCommit.beforeUpdateToState" {
@@ -585,20 +623,12 @@ func (r *run) step(si int, st mbt.Step, model bool) {
 			}
 		}
 		blk := r.blk
-		go func() {
-			e := ""
-			p, stack := mbt.Catch(func() {
-				if _, err := r.node.App.OnCommit(blk.Height, 0, blk); err != nil {
-					e = err.Error()
-				}
-			})
-			if p != nil {
-				e = fmt.Sprintf("panic: %v\n%s", p, stack)
-			}
-			once.Do(func() { close(w.swapped) })
+		close(w.goSwap)
+		select {
+		case <-w.swapped:
+		case e := <-w.done:
 			w.done <- e
-		}()
-		<-w.swapped
+		}
 		r.height++
 		r.node.Metas[blk.Height] = &gtypes.BlockMeta{Hash: blk.Hash(), Header: blk.Header}
 		for _, id := range r.blkIDs {
@@ -719,6 +749,7 @@ func (r *run) runTrace() {
 	if e := r.closeWindow(); e != "" && !r.aborted {
 		r.fail(len(r.tr.Steps), "OnCommit", "panic", true, "panic:OnCommit", e, nil, nil)
 	}
+	r.evsw.Stop()
 	r.node.Close()
 }
 
@@ -734,6 +765,23 @@ func newRun(rep *mbt.Report, mu *sync.Mutex, ti int, tr mbt.Trace) (*run, error)
 	}
 	r.P, r.W = mbt.Int(tr.Cfg["P"]), mbt.Int(tr.Cfg["W"])
 	node.App.VerifPoolSetLimits(r.P, r.W)
+	// the commit-hook listener Angine installs: run the application's OnCommit and hand back its result
+	r.evsw = gtypes.NewEventSwitch()
+	if _, err := r.evsw.Start(); err != nil {
+		return nil, err
+	}
+	gtypes.AddListenerForEvent(r.evsw, "verif-c19", gtypes.EventStringHookCommit(), func(ed gtypes.TMEventData) {
+		data := ed.(gtypes.EventDataHookCommit)
+		w := r.win
+		close(w.updated)
+		<-w.goSwap
+		res, err := r.node.App.OnCommit(data.Height, data.Round, data.Block)
+		if cs, ok := res.(gtypes.CommitResult); ok && err == nil {
+			data.ResCh <- cs
+		} else {
+			data.ResCh <- gtypes.CommitResult{}
+		}
+	})
 	for _, x := range tr.Cfg["universe"].([]interface{}) {
 		id := parseID(x)
 		b := raw(id)
@@ -911,8 +959,26 @@ func runMempool(rep *mbt.Report, ti int, tr mbt.Trace) {
 	fail := func(si int, action, kind string, prop bool, key, detail string, want, got interface{}) {
 		rep.Fail(mbt.Failure{Trace: ti, TraceID: tr.ID, Step: si, Action: action, Kind: kind, Property: prop, Key: key, Detail: detail, Want: want, Got: got})
 	}
-	txb := func(v interface{}) []byte { return []byte("verif-mempool-tx-" + mbt.Str(v)) }
-	name := func(b []byte) string { return strings.TrimPrefix(string(b), "verif-mempool-tx-") }
+	// transaction "b" is an admin request (tag "zaop"): pbft's createProposalBlock puts it into block.ExTxs
+	txb := func(v interface{}) []byte {
+		if mbt.Str(v) == "b" {
+			return gtypes.TagAdminOPTx([]byte("verif-mempool-tx-b"))
+		}
+		return []byte("verif-mempool-tx-" + mbt.Str(v))
+	}
+	name := func(b []byte) string {
+		if gtypes.IsAdminOP(b) {
+			b = b[len(gtypes.AdminTag):]
+		}
+		return strings.TrimPrefix(string(b), "verif-mempool-tx-")
+	}
+	// Update is reached through its real caller State.CommitStateUpdateMempool; the commit hook answers at once
+	evsw := gtypes.NewEventSwitch()
+	evsw.Start()
+	defer evsw.Stop()
+	gtypes.AddListenerForEvent(evsw, "verif-c19-mempool", gtypes.EventStringHookCommit(), func(ed gtypes.TMEventData) {
+		ed.(gtypes.EventDataHookCommit).ResCh <- gtypes.CommitResult{}
+	})
 	model := tr.Cfg["mode"] != "oracle"
 	subs := map[string]*mpActor{}
 	subTx := map[string]string{}
@@ -1016,7 +1082,15 @@ func runMempool(rep *mbt.Report, ti int, tr mbt.Trace) {
 			parked = append(parked, upd)
 			mpSet(upd)
 			u := upd
-			go func() { mem.Update(int64(si+1), txs); u.done <- nil }()
+			blk := evmutil.MakeBlock(int64(si+1), nil)
+			for _, tx := range txs {
+				if gtypes.IsAdminOP(tx) {
+					blk.Data.ExTxs = append(blk.Data.ExTxs, tx)
+				} else {
+					blk.Data.Txs = append(blk.Data.Txs, tx)
+				}
+			}
+			go func() { u.done <- (&sm.State{}).CommitStateUpdateMempool(evsw, blk, mem, 0) }()
 			mpWait(upd)
 			for _, x := range updB {
 				committed[x] = true
